@@ -44,7 +44,19 @@ func c18Header(r *rand.Rand) *tar.Header {
 		Gname:  []string{"", "wheel", "grüppe"}[r.Intn(3)],
 		Format: []tar.Format{tar.FormatUSTAR, tar.FormatPAX, tar.FormatGNU, tar.FormatUnknown}[r.Intn(4)],
 	}
-	h.ModTime = time.Unix([]int64{0, 1, 1700000000, 1<<33 - 1, 1 << 33, 1 << 40}[r.Intn(6)], 0)
+	h.ModTime = time.Unix([]int64{0, 1, 1700000000, 1<<33 - 1, 1 << 33, 1 << 40, -1, -86400 * 365, -1 << 33}[r.Intn(9)], 0)
+	if r.Intn(10) == 0 {
+		// negative ids exist in the wild (nobody = -2 on some systems): base-256 with a leading 0xff in GNU archives
+		h.Uid, h.Gid, h.Format = []int{-1, -2, -65534}[r.Intn(3)], []int{-1, -2, 100}[r.Intn(3)], tar.FormatGNU
+	}
+	if r.Intn(5) == 0 {
+		// member names of every length around the sizes where a long-name / pax record fills whole 512-byte records
+		n := []int{99, 100, 101, 155, 156, 255, 256, 257}[r.Intn(8)]
+		if r.Intn(2) == 0 {
+			n = []int{500, 1010}[r.Intn(2)] + r.Intn(25)
+		}
+		h.Name = strings.Repeat("dir/", n/4)[:n-5] + "f.txt"
+	}
 	if r.Intn(4) == 0 {
 		h.ModTime = time.Unix(1700000000, 123456789)
 		h.AccessTime = time.Unix(1600000000, 5)
@@ -142,6 +154,9 @@ func c18Forward(c *fw.Ctx, t *lib.Tree, kind string, a []byte, tag string) bool 
 	good := true
 	for _, lim := range []uint32{0, 3072, 512, uint32(len(a)), uint32(len(a) + 1)} {
 		entry := pickEntry(c)
+		if forcedEntry == "" && c.Rand.Intn(40) == 0 {
+			entry = "DetectFileSymlink"
+		}
 		p := c18Payload{Kind: kind, In: a, Limit: lim, Pos: -1, InQ: fw.Quote(a[:minInt(len(a), 110)], 110), Entry: entry}
 		key := fw.InputKey(a, lim, entry)
 		c.Trace(func() (string, any) { return key, p })
@@ -286,7 +301,7 @@ func init() {
 	fw.Register(&fw.Prop{
 		ID:    "C18",
 		Level: "exploration",
-		Rule: "archives are written by archive/tar from random headers: formats USTAR / PAX / GNU / auto, 28 member names (long, UTF-8, names that begin like higher-priority formats (PK\\x03\\x04, %PDF-, MZ, ELF, GIF89a) and like lower-priority ones (BZh, xar!, wOFF, gzip, Rar!, fLaC, ID3, BM); names containing /gpkg-1 followed by further characters, names that contain such signatures away from the start), member data that begins with another format's signature (PDF, zip, PNG, JSON, HTML, ELF …: it sits at offset 512), modes, uid/gid up to and beyond 2^21 (base-256 fields), sizes 0 … 2^40 (base-256 above 8 GiB), mtimes incl. > 2^33 and sub-second (PAX), all type flags with link names and device numbers, PAX records, one or two members; each is detected at limits {0, 3072, 512, len, len+1}; then for the first block EVERY position outside 148-155 x EVERY other byte value (504 x 255 = 128 520 corruptions, exhaustive per archive) must not be reported as tar; a sample of corruptions is repeated under read limits that cut inside the first block (1 … 512). " +
+		Rule: "archives are written by archive/tar from random headers: formats USTAR / PAX / GNU / auto, 28 member names (long, UTF-8, names that begin like higher-priority formats (PK\\x03\\x04, %PDF-, MZ, ELF, GIF89a) and like lower-priority ones (BZh, xar!, wOFF, gzip, Rar!, fLaC, ID3, BM); names containing /gpkg-1 followed by further characters, names that contain such signatures away from the start), member data that begins with another format's signature (PDF, zip, PNG, JSON, HTML, ELF …: it sits at offset 512), modes, uid/gid up to and beyond 2^21 (base-256 fields), sizes 0 … 2^40 (base-256 above 8 GiB), mtimes incl. > 2^33, before 1970 and sub-second (PAX), negative ids (GNU base-256 with leading 0xff), member names of 99 … 257 and 500 … 1034 bytes, all type flags with link names and device numbers, PAX records, one or two members; each is detected at limits {0, 3072, 512, len, len+1}; then for the first block EVERY position outside 148-155 x EVERY other byte value (504 x 255 = 128 520 corruptions, exhaustive per archive) must not be reported as tar; a sample of corruptions is repeated under read limits that cut inside the first block (1 … 512). " +
 			"non-trivial = an archive that is reported as tar and was put through the exhaustive corruption sweep (counted once per archive, archives are distinct by construction); plus distinct (format, type flag, has high bytes) classes.",
 		Assumptions: []string{
 			"archive/tar is the conforming writer; header combinations it refuses are not archives",
